@@ -213,6 +213,27 @@ def run_case(case):
         _, lq_coarse = torchsde.sdeint(sde, y0, ts2, bm=mk(), method=combo["method"], dt=tm["dt"], options=opts,
                                        logqp=True, **akw, **nkw)
 
+    if case.get("extra") and not adaptive:
+        # continuation through extra=True / extra_solver_state with logqp=True on both legs: the log-ratio of the legs must
+        # be that of the one-shot solve (restart on the step grid, dyadic times)
+        ts_r = torch.tensor([0.0, 0.25, 0.625], dtype=dtype)
+
+        def mk_r():
+            return torchsde.BrownianInterval(t0=0.0, t1=0.625, size=(B, m_bm), dtype=dtype, entropy=case["entropy"],
+                                             levy_area_approximation=combo["levy"])
+        with torch.no_grad():
+            _, lq_one = entry(sde, y0, ts_r, bm=mk_r(), method=combo["method"], dt=0.125, options=opts, logqp=True, **nkw)
+            bm_r = mk_r()
+            ys_1, lq_1, ex_1 = entry(sde, y0, ts_r[:2], bm=bm_r, method=combo["method"], dt=0.125, options=opts,
+                                     logqp=True, extra=True, **nkw)
+            ys_2, lq_2, _ = entry(sde, ys_1[-1], ts_r[1:], bm=bm_r, method=combo["method"], dt=0.125, options=opts,
+                                  logqp=True, extra=True, extra_solver_state=ex_1, **nkw)
+        checks += 1
+        e_r = float((torch.cat([lq_1, lq_2]) - lq_one).abs().max()) / max(1.0, float(lq_one.abs().max()))
+        if not e_r <= 1e-12:
+            return fail("additivity_across_restart", f"logqp over [0, .25] + continued over [.25, .625] through "
+                                                     f"extra_solver_state differs from the one-shot solve: rel {e_r:.3e} "
+                                                     f"({solve.combo_label(combo)})")
     checks += 1
     if tuple(lq.shape) != (len(ts) - 1, B) or tuple(ys.shape) != (len(ts), B, d):
         return fail("shape", f"logqp output shape {tuple(lq.shape)}, states {tuple(ys.shape)} for {len(ts)} times")
